@@ -10,7 +10,7 @@ IMPORTS = "From Coq Require Import ZArith QArith List.\nImport ListNotations.\nF
 
 RULE = ("(a) injected bootstrap margins for 3-9 contests (predictions on either side of zero incl. the case of a prediction whose whole bootstrap "
         "distribution lies on the other side, ties at zero, B in {2, 10, 37}), random non-negative weights and base, call / stop lists, both correlation "
-        "modes: order, range, prediction definition and called-contest neutrality checked on the returned triple; in correlation mode the triple is "
+        "modes, hard and soft (sigmoid, T in {25, 100, 5000}) threshold: order, range, prediction definition and called-contest neutrality checked on the returned triple; in correlation mode the triple is "
         "compared inside Coq with nat_sum; weight dictionaries of the wrong size must be rejected; (b) op histories on the real model object: every "
         "order / subset of {top-level, county-level, classification-level} aggregate computations before the summary call; (c) get_estimates with "
         "permuted / extended aggregate lists followed by get_national_summary_votes_estimates: identical summaries. distinct = (B, mode, calls, "
@@ -36,7 +36,12 @@ def inj_job(job):
         # whole distribution on the other side of zero than the point prediction (the F4 shape)
         for i in range(C):
             diff[i, :] = (-0.0078125 if preds[i] <= 0 else 0.5) if i % 2 == 0 else diff[i, :]
-    m = boot.model(B, {"national_summary_correlation": corr})
+    extra = {"national_summary_correlation": corr}
+    if kind.startswith("sigmoid"):
+        # the soft threshold: a contest counts with weight expit(T * margin); T small enough for fractional counts, or the default
+        extra["agg_model_hard_threshold"] = False
+        extra["T"] = r.choice([25, 100]) if kind == "sigmoid-soft" else 5000
+    m = boot.model(B, extra)
     rep, non, unx = boot.one_unit_per_contest(names, preds)
     boot.inject(m, diff, preds)
     lhs = [n for n in names if r.random() < 0.15]
@@ -80,7 +85,12 @@ def statement(o):
         return [{"what": f"national summary failed: {o['exc']}", "kind": "raises"}]
     p, lo, hi = o["triple"]
     if not (lo <= p <= hi):
-        fails.append({"what": f"summary not ordered: lower {lo}, prediction {p}, upper {hi} (correlation mode {o['corr']})", "kind": "order"})
+        fails.append({"what": f"summary not ordered: lower {lo}, prediction {p}, upper {hi} (correlation mode {o['corr']}, {o['job'][3]})", "kind": "order"})
+    if str(o["job"][3]).startswith("sigmoid"):
+        # the range / prediction-definition clauses are stated for the hard threshold only
+        if any(w != "rejected" for w in o["wrong"]):
+            fails.append({"what": f"weight dictionary of the wrong size: {o['wrong']}", "kind": "wrong-size"})
+        return fails
     tot = sum(o["weights"].values())
     if not (o["base"] - 1e-9 <= lo and hi <= o["base"] + tot + 1e-9):
         fails.append({"what": f"summary [{lo}, {hi}] leaves [base, base + total weight] = [{o['base']}, {o['base'] + tot}]", "kind": "range"})
@@ -185,7 +195,7 @@ def run(chk):
     jobs = []
     for B in (2, 10, 37):
         for corr in (True, False):
-            for kind in ("random", "opposite"):
+            for kind in ("random", "opposite", "sigmoid-soft", "sigmoid-default"):
                 for _ in range(2 if chk.tier == "quick" else 20):
                     jobs.append((rng.randint(0, 2**31), B, corr, kind))
     outs = core.pmap(inj_job, jobs)
@@ -199,7 +209,7 @@ def run(chk):
         fs = statement(o)
         for f in fs:
             chk.violation(f["what"], replay, {"kind": f["kind"], "corr": corr})
-        if corr and "triple" in o and not fs:
+        if corr and "triple" in o and not fs and not str(kind).startswith("sigmoid"):
             exprs.append(encode(o))
             idx.append(o)
     res, errs = core.coq_eval("C08", IMPORTS, exprs, shard=20)
